@@ -140,7 +140,7 @@ Section Core.
         let '(IM, rows) := if odd_size && Nat.even rows
                            then (pyslice 0 (-1) IM, rows - 1) else (IM, rows) in
         let xs := Z.of_nat ((cols - rows) / 2) in
-        map (pyslice xs (- xs)) IM                                                    (* IM[:, xs:-xs] *)
+        map (pyslice xs (xs + Z.of_nat rows)) IM                                      (* IM[:, xs:xs + rows] *)
     else IM.
 End Core.
 
@@ -171,26 +171,26 @@ Section Lin.
   Definition qfrac (s : Q) : Q := (s - inject_Z (Qfloor s))%Q.
 
   (* center.py:275-283 (maintain_size) and 301-320 (other modes) with order=1.
-     p0, p1: preprocessed components (None when the origin component is None),
-     ax0, ax1: membership in axes. *)
-  Definition set_center_lin (data : img) (p0 p1 : option (Z * Q)) (ax0 ax1 : bool) (cr : crop)
+     p0, p1: preprocessed components (None when the origin component is None
+     or the axis is not in axes, center.py:250-251). *)
+  Definition set_center_lin (data : img) (p0 p1 : option (Z * Q)) (cr : crop)
     : outcome img :=
     let n := nrows data in
     let m := ncols data in
     match cr with
     | MaintainSize =>
-      let par (ax : bool) (p : option (Z * Q)) (len : nat) :=
-          match ax, p with
-          | true, Some (i, s) => ((i - Z.of_nat (len / 2) + Qfloor s)%Z, ofQ (qfrac s))
-          | _, _ => (0%Z, zero)
+      let par (p : option (Z * Q)) (len : nat) :=
+          match p with
+          | Some (i, s) => ((i - Z.of_nat (len / 2) + Qfloor s)%Z, ofQ (qfrac s))
+          | None => (0%Z, zero)
           end in
-      let '(off0, t0) := par ax0 p0 n in
-      let '(off1, t1) := par ax1 p1 m in
+      let '(off0, t0) := par p0 n in
+      let '(off1, t1) := par p1 m in
       Ok (lin2 n m off0 t0 off1 t1 data)
     | OtherCrop => Raises
     | _ =>
-      (* data = shift(np.pad(data, 1), -subpixel, order)[:-1, :-1]: both axes,
-         whether or not they are in axes *)
+      (* data = shift(np.pad(data, 1), -subpixel, order)[:-1, :-1]
+         (subpixel = 0 for an axis that is not centred) *)
       let par (p : option (Z * Q)) :=
           match p with
           | Some (_, s) => ((Qfloor s - 1)%Z, ofQ (qfrac s))
@@ -204,14 +204,14 @@ Section Lin.
           if frac p then
             match cr with ValidRegion => droplast 1 (skipn 1 l) | _ => l end
           else skipn 1 l in
-      let org (ax : bool) (p : option (Z * Q)) : option Z :=
-          match ax, p with
-          | true, Some (i, _) =>
+      let org (p : option (Z * Q)) : option Z :=
+          match p with
+          | Some (i, _) =>
             Some (if frac p then match cr with ValidRegion => i | _ => (i + 1)%Z end else i)
-          | _, _ => None
+          | None => None
           end in
       let data2 := cut _ p0 (map (cut _ p1) data1) in
-      match set_center_int zero data2 (org ax0 p0) (org ax1 p1) cr with
+      match set_center_int zero data2 (org p0) (org p1) cr with
       | Some out => Ok out
       | None => Raises
       end
@@ -222,17 +222,17 @@ Section Lin.
     : outcome img :=
     let n := nrows data in
     let m := ncols data in
-    let p0 := option_map (prep_axis n order) or0 in
-    let p1 := option_map (prep_axis m order) or1 in
+    (* a component that is None or whose axis is not in axes is skipped *)
+    let p0 := if ax0 then option_map (prep_axis n order) or0 else None in
+    let p1 := if ax1 then option_map (prep_axis m order) or1 else None in
     let sub (p : option (Z * Q)) := match p with Some (_, s) => s | None => 0%Q end in
     let whole := Qeq_bool (sub p0) 0%Q && Qeq_bool (sub p1) 0%Q in          (* np.all(subpixel == 0) *)
-    let sel (ax : bool) (p : option (Z * Q)) := if ax then option_map fst p else None in
     if Nat.eqb order 0 || whole then
-      match set_center_int zero data (sel ax0 p0) (sel ax1 p1) cr with
+      match set_center_int zero data (option_map fst p0) (option_map fst p1) cr with
       | Some out => Ok out
       | None => Raises
       end
-    else if Nat.eqb order 1 then set_center_lin data p0 p1 ax0 ax1 cr
+    else if Nat.eqb order 1 then set_center_lin data p0 p1 cr
     else Unmodelled.
 
   (* center_image with an explicit origin (meth = Some origin) or
